@@ -90,6 +90,9 @@ var C09Trees = []string{
 	"[$a = 7" + strings.Repeat(", $a", 32) + "]",
 }
 
+// c09SharedCtx: one cancellable context handed to every evaluation (contexts are made to be shared)
+var c09SharedCtx, c09SharedCancel = context.WithCancel(context.Background())
+
 var c09OwnCounter atomic.Int64
 
 // scribbleLists overwrites every element of every list inside v (the consumer owns its result).
@@ -212,6 +215,33 @@ func C09Body(name string) func() string {
 			}
 			return first
 		}
+	case "ctxtext":
+		// the shared context is converted to text (by +, toString, join, ==) while a host function called
+		// from the same formula derives child contexts from it: the evaluator reads the context only
+		// through its own methods
+		return func() string {
+			r := formula.NewRunner()
+			d := c08Data()
+			d["work"] = func(ctx context.Context) (float64, error) {
+				child, cancel := context.WithTimeout(ctx, time.Hour)
+				defer cancel()
+				_ = child
+				return 1, nil
+			}
+			r.SetThis(d)
+			p, err := cachedParseC09([]string{"len('' + ctx) > 0 && work() == 1", "len(toString(ctx)) > 0 && work() == 1 && len(join([ctx, 1], ',')) > 0", "[work(), 'a' == ctx, work()]"}[idx%3])
+			if err != nil {
+				return "parse error: " + err.Error()
+			}
+			o := safeResolve(r, c09SharedCtx, p.Expression)
+			if o.panicked {
+				return "panic:" + o.panicMsg
+			}
+			if o.err != nil {
+				return "error:" + o.err.Error()
+			}
+			return showExact(o.val)
+		}
 	case "fields":
 		return func() (obs string) {
 			defer func() {
@@ -264,6 +294,21 @@ func C09Body(name string) func() string {
 	return func() string { return "unknown body " + name }
 }
 
+// cachedParseC09 parses each text once, before any thread runs (a shared tree, like the others)
+var c09CtxTrees sync.Map
+
+func cachedParseC09(src string) (*formula.SourceCode, error) {
+	if v, ok := c09CtxTrees.Load(src); ok {
+		return v.(*formula.SourceCode), nil
+	}
+	o := safeParse([]byte(src))
+	if o.panicked || o.err != nil {
+		return nil, fmt.Errorf("%v %s", o.err, o.panicMsg)
+	}
+	v, _ := c09CtxTrees.LoadOrStore(src, o.src)
+	return v.(*formula.SourceCode), nil
+}
+
 var c09ControlRunner *formula.Runner
 
 var c09Sequential = map[string]string{}
@@ -300,6 +345,7 @@ func C09Scenarios(quick bool) [][]string {
 	if !quick {
 		sc = append(sc, []string{"eval2:16:3", "fields:16"})
 	}
+	sc = append(sc, []string{"ctxtext:0", "ctxtext:0"}, []string{"ctxtext:1", "ctxtext:2"})
 	sc = append(sc, []string{"own:14", "own:14"}, []string{"own:14", "eval:14"}, []string{"own:15", "own:15"}, []string{"own:15", "fields:15"})
 	sc = append(sc, []string{"parse:3", "parse:4"}, []string{"parse:3", "bad:3"}, []string{"bad:3", "bad:4"}, []string{"eval:6:0", "parse:4"})
 	// cold start: the shared trees are parsed anew before every execution, so that the very first
